@@ -252,6 +252,12 @@ func (f *Frame) alloc(b *ssa.BasicBlock, st *State, x *ssa.Alloc) Val {
 			return v
 		}
 	}
+	if ts := shortType(derefType(x.Type())); ts == "bytes.Buffer" || ts == "strings.Builder" {
+		ln, _ := tr.bufKeys()
+		st.mem[ln] = tr.c.define("H_"+ln, tr.memSortFull(ln), sx("store", tr.memGet(st, ln), v.t, tr.c.it.iconst(0)))
+		f.noteWrite(ln, b.Index)
+		return v
+	}
 	a := tr.addrOf(v, x.Type())
 	f.storeZero(st, a, b.Index)
 	return v
